@@ -839,7 +839,10 @@ func (s *BaseNodeService) processMessage(message storage.Message) (*types.Operat
 	}
 
 	// switch FSM state by hand due to implementation specifics
-	if resp.State == sif.StateSigningPartialSignsCollected {
+	// (a canceled batch is over as well: return to idle right away, so a new batch can be proposed)
+	if resp.State == sif.StateSigningPartialSignsCollected ||
+		resp.State == sif.StateSigningPartialSignsAwaitCancelledByError ||
+		resp.State == sif.StateSigningPartialSignsAwaitCancelledByTimeout {
 		fsmInstance, err = state_machines.FromDump(fsmDump)
 		if err != nil {
 			return nil, fmt.Errorf("failed get state_machines from dump: %w", err)
